@@ -118,7 +118,7 @@ check("C20", "exploration",
       "Trusted: the generator's line/column bookkeeping (ground truth); call sites begin with an identifier.",
       "ground-truth oracle from the generator's source map over generated programs, under ASan", "DESIGN.md section 5 C20")
 check("C11", "exploration",
-      "3k/200k programs composed of 28 route templates over an instrumented C++ class (instance registry with ids, tags, magic word): create, "
+      "3k/200k programs composed of 34 route templates over an instrumented C++ class (instance registry with ids, tags, magic word): create, "
       "copy, alias, store in Vector/Map/attribute, capture, bind, pass by value/&/const&/*/const*/shared_ptr/shared_ptr<const>, return by "
       "value/shared_ptr/unique_ptr, base-class and user conversions (converted temporaries), C++-held shared_ptr and std::function callbacks, "
       "loop variables and per-iteration objects captured by closures, exception unwinding; referrers are dropped by construction and probes "
@@ -127,7 +127,7 @@ check("C11", "exploration",
       "Trusted: the registry (single-threaded), the by-construction knowledge of when the last referrer is gone. No reference cycles.",
       "event-log checker over an instrumented class + ASan, on generated lifetime routes", "DESIGN.md section 5 C11")
 check("C07", "exploration",
-      "2.5k/100k mutation attempts: const source (19 kinds: C++ objects shared by const&, const*, shared_ptr<const>, const return values, "
+      "2.5k/100k mutation attempts: const source (22 kinds: registered function objects, C++ objects shared by const&, const*, shared_ptr<const>, const return values, "
       "add_global_const / const_var values; plus literal spellings re-evaluated after the attempt) x alias chain of 0-5 steps (var &, :=, "
       "return, copy, vector element, then parameter / parameter+reference / capture / bind wrappers) x one mutator of the source's type (every "
       "assignment operator, ++/--, mutating members of string/Vector/Map/user class, harness functions taking T&, T*, shared_ptr<T>, "
